@@ -171,6 +171,40 @@ func runEngineI(p *Prog, o *obls) {
 				p1 = append(p1, fmt.Sprintf("the extension written at %s uses a second, plain read of the counter instead of the fetch-and-add result", p.instrPos(se)))
 			}
 		}
+		// the counter only ever moves forward by one: nothing else in the repository stores to it (a reset on Unbind or
+		// Close makes the numbers of a stream that is still sending repeat)
+		counters := map[string]bool{}
+		for _, a := range allocs {
+			if afa, ok := atomicOf[a].Call.Args[0].(*ssa.FieldAddr); ok {
+				counters[fieldKeyAddr(afa)] = true
+			}
+		}
+		for _, f := range p.Funcs {
+			instrsOf(f, func(in ssa.Instruction) {
+				switch x := in.(type) {
+				case *ssa.Call:
+					name, ok := isAtomicCall(&x.Call)
+					if !ok || len(x.Call.Args) == 0 {
+						return
+					}
+					fa, ok := x.Call.Args[0].(*ssa.FieldAddr)
+					if !ok || !counters[fieldKeyAddr(fa)] {
+						return
+					}
+					if strings.HasPrefix(name, "Store") || strings.HasPrefix(name, "Swap") || strings.HasPrefix(name, "CompareAndSwap") {
+						p1 = append(p1, fmt.Sprintf("the counter is overwritten by %s at %s (in %s): numbers already handed out are handed out again", name, p.instrPos(x), funcKey(f)))
+					} else if strings.HasPrefix(name, "Add") && (len(x.Call.Args) < 2 || !isConstInt(x.Call.Args[1], 1)) {
+						p1 = append(p1, fmt.Sprintf("the counter is moved by %s at %s (in %s), not by the constant 1", valueString(x.Call.Args[1]), p.instrPos(x), funcKey(f)))
+					}
+				case *ssa.Store:
+					fa, ok := x.Addr.(*ssa.FieldAddr)
+					if !ok || !counters[fieldKeyAddr(fa)] || freshlyBuilt(p, fa, f) {
+						return
+					}
+					p1 = append(p1, fmt.Sprintf("the counter is assigned at %s (in %s): numbers already handed out are handed out again", p.instrPos(x), funcKey(f)))
+				}
+			})
+		}
 		if len(p1) > 0 {
 			o.bad("I1", key, pos, strings.Join(dedupe(p1), "; "))
 		} else {
@@ -697,6 +731,10 @@ func runEngineL(p *Prog, o *obls) {
 					}
 				}
 				if self && !dup {
+					if onlyWipedEnter(p, cs.typ+"."+name) {
+						o.note("L3", cs.typ+".Clear:"+name, p.Pos(fn.Pos()), "a free list: every node stored into this field was zeroed first (`*n = node{}`) or comes from the field's own chain, so it keeps no packet reachable; Clear need not reset it")
+						continue
+					}
 					roots = append(roots, name)
 				}
 			}
@@ -917,7 +955,31 @@ func l1l2(p *Prog, o *obls, fn *ssa.Function, gs gateSpec) {
 			}
 		})
 	})
-	if len(headStores) == 0 && nDelegated == 0 {
+	// a failed pop leaves the queue as it was: where the queue call's error is known non-nil, nothing calls a method
+	// of the queue that writes through its receiver ("fails without disturbing the buffer")
+	vmemo := map[*ssa.Function]int{}
+	for _, qc := range qcalls {
+		fe := errExtract(qc)
+		if fe == nil || len(qc.Call.Args) == 0 {
+			continue
+		}
+		qk := p.pureKey(qc.Call.Args[0])
+		instrsOf(fn, func(in ssa.Instruction) {
+			c2, ok := in.(*ssa.Call)
+			if !ok || c2 == qc || len(c2.Call.Args) == 0 || !canReach(qc, c2) {
+				return
+			}
+			sc := c2.Call.StaticCallee()
+			if sc == nil || !p.InUniverse(sc) || sc.Signature.Recv() == nil || p.pureKey(c2.Call.Args[0]) != qk {
+				return
+			}
+			if p.nilnessAt(fe, c2.Block()) != 1 || !mutatesReceiver(p, sc, 0, vmemo) {
+				return
+			}
+			p2 = append(p2, fmt.Sprintf("%s, which modifies the queue, is called at %s where the pop at %s is known to have failed: a pop for a number that is not buffered disturbs the buffer", shortCallee(funcKey(sc)), p.instrPos(c2), p.instrPos(qc)))
+		})
+	}
+	if len(headStores) == 0 && nDelegated == 0 && len(p2) == 0 {
 		return
 	}
 	for _, st := range headStores {
@@ -1457,6 +1519,33 @@ func (p *Prog) firstIterationReaches(h *ssa.BasicBlock, i int, subst map[ssa.Val
 	return reached
 }
 
+// l5Pair: the trailing/current pair (pa, pb) of one loop: back edges advance it as (pa := pb; pb := pb.f), and on entry
+// pb is pa.f or the unlink at block `at` is unreachable in the first iteration.
+func l5Pair(p *Prog, pa, pb *ssa.Phi, field int, fname string, at *ssa.BasicBlock, where string, bad, notes *[]string) {
+	h := pa.Block()
+	for i := range pa.Edges {
+		ea, eb := pa.Edges[i], pb.Edges[i]
+		if h.Dominates(h.Preds[i]) {
+			adv := false
+			if u, ok := p.origin(eb).(*ssa.UnOp); ok && u.Op == token.MUL {
+				if fx, ok := u.X.(*ssa.FieldAddr); ok && fx.Field == field && p.origin(fx.X) == ssa.Value(pb) {
+					adv = true
+				}
+			}
+			if p.origin(ea) != ssa.Value(pb) || !adv {
+				*notes = append(*notes, fmt.Sprintf("the loop at %s does not advance the pair as (trailing := current; current := current.%s): not decided", p.instrPosV(pa), fname))
+			}
+			continue
+		}
+		if p.pureKey(eb) == "*("+p.pureKey(ea)+"."+fname+")" {
+			continue
+		}
+		if p.firstIterationReaches(h, i, map[ssa.Value]ssa.Value{pa: ea, pb: eb}, at) {
+			*bad = append(*bad, fmt.Sprintf("the unlink %s.%s = %s.%s at %s can run in the first iteration, when %s is %s and %s is %s — not its predecessor: another node is re-linked, the matched node stays in the list with its packet taken out", pa.Comment, fname, pb.Comment, fname, where, pa.Comment, shortExpr(p, ea), pb.Comment, shortExpr(p, eb)))
+		}
+	}
+}
+
 // l5ListUnlink (rule L5): a node is unlinked through its true predecessor. For every store `A.f = B.f` on a
 // self-referential struct (f a pointer to the struct's own type: prev.next = pos.next) where A and B are the trailing
 // and the current pointer of one loop — on every back edge A takes B's value and B advances along f, so A.f == B from
@@ -1515,40 +1604,49 @@ func l5ListUnlink(p *Prog, o *obls) {
 					return
 				}
 			}
+			fname := "?"
+			if fv := fieldOfAddr(fa); fv != nil {
+				fname = fv.Name()
+			}
+			// the unlink sits in a helper that is handed the pair (popAfter(prev, pos)): judged at every call
+			if parA, isPA := A.(*ssa.Parameter); isPA {
+				if parB, isPB := B.(*ssa.Parameter); isPB {
+					ia, ib := -1, -1
+					for i, q := range fn.Params {
+						if q == parA {
+							ia = i
+						}
+						if q == parB {
+							ib = i
+						}
+					}
+					sites, closed := p.staticCallSites(fn)
+					if ia < 0 || ib < 0 || !closed {
+						return
+					}
+					for _, cs := range sites {
+						args := cs.Common().Args
+						if ia >= len(args) || ib >= len(args) {
+							continue
+						}
+						ca, okA := p.origin(args[ia]).(*ssa.Phi)
+						cb, okB := p.origin(args[ib]).(*ssa.Phi)
+						if !okA || !okB || ca.Block() != cb.Block() {
+							continue
+						}
+						n++
+						l5Pair(p, ca, cb, fa.Field, fname, cs.Block(), p.instrPos(cs)+" (through "+funcKey(fn)+")", &bad, &notes)
+					}
+					return
+				}
+			}
 			pa, okA := A.(*ssa.Phi)
 			pb, okB := B.(*ssa.Phi)
 			if !okA || !okB || pa.Block() != pb.Block() {
 				return
 			}
 			n++
-			h := pa.Block()
-			fname := "?"
-			if fv := fieldOfAddr(fa); fv != nil {
-				fname = fv.Name()
-			}
-			for i := range pa.Edges {
-				ea, eb := pa.Edges[i], pb.Edges[i]
-				back := h.Dominates(h.Preds[i])
-				if back {
-					adv := false
-					if u, ok := p.origin(eb).(*ssa.UnOp); ok && u.Op == token.MUL {
-						if fx, ok := u.X.(*ssa.FieldAddr); ok && fx.Field == fa.Field && p.origin(fx.X) == ssa.Value(pb) {
-							adv = true
-						}
-					}
-					if p.origin(ea) != ssa.Value(pb) || !adv {
-						notes = append(notes, fmt.Sprintf("the loop at %s does not advance the pair as (trailing := current; current := current.%s): not decided", p.instrPosV(pa), fname))
-					}
-					continue
-				}
-				// entry edge: current starts as trailing.f ?
-				if p.pureKey(eb) == "*("+p.pureKey(ea)+"."+fname+")" {
-					continue
-				}
-				if p.firstIterationReaches(h, i, map[ssa.Value]ssa.Value{pa: ea, pb: eb}, st.Block()) {
-					bad = append(bad, fmt.Sprintf("the unlink %s.%s = %s.%s at %s can run in the first iteration, when %s is %s and %s is %s — not its predecessor: another node is re-linked, the matched node stays in the list with its packet taken out", pa.Comment, fname, pb.Comment, fname, p.instrPos(st), pa.Comment, shortExpr(p, ea), pb.Comment, shortExpr(p, eb)))
-				}
-			}
+			l5Pair(p, pa, pb, fa.Field, fname, st.Block(), p.instrPos(st), &bad, &notes)
 		})
 		if n == 0 {
 			continue
@@ -1587,4 +1685,62 @@ func (p *Prog) canonCondKey(f condFact) (string, bool) {
 		kx, ky = ky, kx
 	}
 	return "(" + kx + op.String() + ky + ")", t
+}
+
+// onlyWipedEnter: every store to the field (a pointer into a linked structure) stores nil, a node taken from the
+// field's own chain (`q.free = recycled.next` with recycled loaded from q.free), or a node that the same function
+// zeroed as a whole before (`*n = node{}` dominating the store): a stack of wiped nodes kept for reuse.
+func onlyWipedEnter(p *Prog, fk string) bool {
+	n := 0
+	ok := true
+	for _, fn := range p.Funcs {
+		instrsOf(fn, func(in ssa.Instruction) {
+			st, isSt := in.(*ssa.Store)
+			if !isSt || !ok {
+				return
+			}
+			fa, isFA := st.Addr.(*ssa.FieldAddr)
+			if !isFA || fieldKeyAddr(fa) != fk || freshlyBuilt(p, fa, fn) {
+				return
+			}
+			n++
+			if isNilConst(st.Val) {
+				return
+			}
+			v := p.origin(st.Val)
+			// from the field's own chain
+			if u, isU := v.(*ssa.UnOp); isU && u.Op == token.MUL {
+				if lfa, isF := u.X.(*ssa.FieldAddr); isF {
+					if fieldKeyAddr(lfa) == fk {
+						return
+					}
+					if bu, isBU := p.origin(lfa.X).(*ssa.UnOp); isBU && bu.Op == token.MUL {
+						if bfa, isBF := bu.X.(*ssa.FieldAddr); isBF && fieldKeyAddr(bfa) == fk {
+							return
+						}
+					}
+				}
+			}
+			// zeroed as a whole before
+			wiped := false
+			instrsOf(fn, func(in2 ssa.Instruction) {
+				z, isZ := in2.(*ssa.Store)
+				if !isZ || p.origin(z.Addr) != v || !instrDominates(z, st) {
+					return
+				}
+				if c, isC := z.Val.(*ssa.Const); isC && c.Value == nil {
+					wiped = true
+				}
+				if u, isU := z.Val.(*ssa.UnOp); isU && u.Op == token.MUL {
+					if al, isAl := u.X.(*ssa.Alloc); isAl && len(p.storesInto(al)) == 0 {
+						wiped = true
+					}
+				}
+			})
+			if !wiped {
+				ok = false
+			}
+		})
+	}
+	return ok && n > 0
 }
